@@ -221,6 +221,10 @@ def build_harness(name, sources, variant="o1", extra_defs=(), libs=("-lpthread",
     exe = os.path.join(outdir, "%s-%s-%s" % (name, variant, key))
     with Lock("bin-" + name + "-" + variant):
         if os.path.exists(exe):
+            try:    # a cache hit counts as use: the pruning below (age > 1 h) must not remove a binary a running check relies on
+                os.utime(exe, None)
+            except OSError:
+                pass
             return exe
         os.makedirs(outdir, exist_ok=True)
         for old in glob.glob(os.path.join(outdir, "%s-%s-*" % (name, variant))):
